@@ -371,7 +371,11 @@ impl Local {
 
     pub(crate) fn schedule_collection(&self) {
         self.must_collect.set(true);
-        if self.collecting.get() {
+        // Re-pinning is only allowed while no guard other than the one that is being dropped
+        // (and whose `unpin` is running the collection) is alive: a deferred function may have
+        // entered a critical section of its own, and moving the announced epoch would end it
+        // behind its back.
+        if self.collecting.get() && self.guard_count.get() == 1 {
             self.repin_without_collect();
         }
     }
